@@ -642,6 +642,21 @@ def gen(ctx, emit):
                 emit("bech32enc %s %d %s" % (s2h(_hrp(rng, hl)), ver, hx(rb(n))))
     for hl in (1, 2, 82, 83, 84):
         emit("bech32enc %s 1 %s" % (s2h(_hrp(rng, hl)), hx(b"\x07\x09")))
+    # valid strings without any cased character (hrp of digits/punctuation, data and checksum all digits): found by search
+    # with the reference encoder; `s.lower() != s and s.upper() != s` and islower()/isupper() differ exactly there
+    nocase_pool = [chr(c) for c in range(33, 127) if not chr(c).isalpha()]
+    digits5 = [i for i, ch in enumerate(CHARSET) if ch.isdigit()]
+    found = 0
+    for _ in range(ctx.n(20000, 400000)):
+        hrp = "".join(rng.choice(nocase_pool) for _ in range(rng.choice((1, 2, 3))))
+        data = [rng.choice(digits5) for _ in range(rng.choice((0, 0, 1, 2)))]
+        spec = rng.choice((1, 2))
+        t = _ref_bech32_encode(hrp, data, spec)
+        if not any(ch.isalpha() for ch in t):
+            emit("bech32raw " + s2h(t), "bech32-no-cased-character")
+            found += 1
+            if found >= ctx.n(6, 60):
+                break
     # hrp with upper case / out of range / non-ASCII characters, empty hrp
     for hrp in ("BC", "Bc", "b c", "b\x7fc", "bé", "€", "\U0001f600", "", " ", "\x20bc"):
         emit("bech32enc %s 0 %s" % (s2h(hrp), hx(b"\x01" * 20)))
